@@ -378,6 +378,84 @@ var c12Model = porcupine.Model{
 	},
 }
 
+// c12ClockInterleave: two operations on one session of the memory store overlap, and the clock moves between the
+// instant at which the first one reads it and the instant at which it gets on with its work (the harness owns the
+// clock function and parks the first operation right after its first reading). Whatever order the store gives the
+// two, the session has been used no earlier than the start of the second one - so it must still be there one second
+// short of an idle period after that.
+func c12ClockInterleave(c *sim.Case) {
+	idle := time.Duration(6+sim.Pick(c, "idle", 20)) * time.Second
+	clk := sim.NewVClock()
+	var armed int32
+	parked, resume := make(chan struct{}), make(chan struct{})
+	oc := &oidc.Clock{NowFn: func() time.Time {
+		t := clk.Now()
+		if atomic.CompareAndSwapInt32(&armed, 1, 0) {
+			close(parked)
+			<-resume
+		}
+		return t
+	}}
+	st := oidc.NewMemoryStore(oc, 0, idle)
+	ctx := context.Background()
+	const id = "sess"
+	_ = st.SetTokenResponse(ctx, id, c12Tok(7))
+	_ = st.SetAuthorizationState(ctx, id, c12Auth(1))
+	ops := []string{"GetTokenResponse", "GetAuthorizationState", "SetTokenResponse", "SetAuthorizationState", "ClearAuthorizationState"}
+	run := func(op string) {
+		switch op {
+		case "GetTokenResponse":
+			_, _ = st.GetTokenResponse(ctx, id)
+		case "GetAuthorizationState":
+			_, _ = st.GetAuthorizationState(ctx, id)
+		case "SetTokenResponse":
+			_ = st.SetTokenResponse(ctx, id, c12Tok(3))
+		case "SetAuthorizationState":
+			_ = st.SetAuthorizationState(ctx, id, c12Auth(2))
+		case "ClearAuthorizationState":
+			_ = st.ClearAuthorizationState(ctx, id)
+		}
+	}
+	opA, opB := ops[sim.Pick(c, "a", len(ops))], ops[sim.Pick(c, "b", len(ops))]
+	clk.Advance(time.Duration(1+sim.Pick(c, "before", int(idle/time.Second)-2)) * time.Second)
+	atomic.StoreInt32(&armed, 1)
+	doneA, doneB := make(chan struct{}), make(chan struct{})
+	go func() { defer close(doneA); run(opA) }()
+	select {
+	case <-parked:
+	case <-doneA:
+		c.Skip("the first operation did not read the clock")
+	case <-time.After(5 * time.Second):
+		panic("harness: the first operation neither finished nor read the clock")
+	}
+	gap := time.Duration(2+sim.Pick(c, "gap", int(idle/time.Second)-3)) * time.Second
+	clk.Advance(gap)
+	tB := clk.Now()
+	go func() { defer close(doneB); run(opB) }()
+	select {
+	case <-doneB:
+		c.Class("second-operation-overtook-the-first")
+	case <-time.After(50 * time.Millisecond):
+		c.Class("second-operation-waited-for-the-first") // the first one holds the store's lock
+	}
+	close(resume)
+	for _, d := range []chan struct{}{doneA, doneB} {
+		select {
+		case <-d:
+		case <-time.After(10 * time.Second):
+			c.Violation("memory:deadlock", "%s and %s on one session did not both return", opA, opB)
+		}
+	}
+	c.Logf("idle=%v: %s reads the clock, %v pass, %s runs at %v, then the first one continues", idle, opA, gap, opB, tB.Format("15:04:05"))
+	clk.Advance(tB.Add(idle - time.Second).Sub(clk.Now()))
+	got, err := st.GetTokenResponse(ctx, id)
+	if err != nil || got == nil {
+		c.Violation("memory:use-moved-backwards", "after %s (clock read at %v earlier) overlapped with %s (started %v), the session is gone one second short of an idle period (%v) after the second one: got %v, %v", opA, gap, opB, tB.Format("15:04:05"), idle, got, err)
+	}
+	c.NonTrivial()
+	c.FP("clock-interleave", idle, opA, opB, gap)
+}
+
 func c12Concurrent(c *sim.Case) {
 	ng := 2 + sim.Pick(c, "goroutines", 3)
 	progs := make([][]c12In, ng)
@@ -625,7 +703,7 @@ func c12AgreeCore(c *sim.Case, abs, idle time.Duration, n int, step func(i int) 
 func TestC12(t *testing.T) {
 	r := sim.NewRun(t, "C12")
 	defer r.Finish()
-	r.Rule = "store operation sequences over ids {a,b,c}: SetTokens(eight values: every subset of access token / expiry / refresh token present, some with tokens of 3-5 KiB), GetTokens, SetLoginState(s1|s2), GetLoginState, ClearLoginState, Remove, RemoveAllExpired (random part), clock advances (with an absolute timeout, for the creation-time clause); for Redis every op is routed to one of two store instances on one miniredis. Exhaustive: all sequences of a fixed length over a 16-letter (op,id) alphabet for both stores, compared with a plain-map model after every read and by a full scan through every replica at the end; random: sequences to length 60 (one in eight: 50-400 operations over up to 66 sessions with ids of realistic length). Agreement tier: the same sequence (exhaustively to length 5 [7] over six operations and two gaps with an idle timeout of 10 s with and without an absolute one, and randomly (to length 16, with absolute and idle timeouts from {0,3,10,60} s and advances to fractions of a limit) on the memory store and on two Redis replicas at once; every read must find the same thing in both kinds of store outside the 1 s bands around every instant at which any reading of 'last used' could put a limit. Concurrent tier: 2-4 goroutines x 3-8 ops on 2 ids against the memory store, histories checked for linearizability with porcupine. Non-trivial = touches >= 2 ids and has a Clear/Remove followed by a later op on the same id (sequential) / has overlapping operations of different goroutines (concurrent)."
+	r.Rule = "store operation sequences over ids {a,b,c}: SetTokens(eight values: every subset of access token / expiry / refresh token present, some with tokens of 3-5 KiB), GetTokens, SetLoginState(s1|s2), GetLoginState, ClearLoginState, Remove, RemoveAllExpired (random part), clock advances (with an absolute timeout, for the creation-time clause); for Redis every op is routed to one of two store instances on one miniredis. Exhaustive: all sequences of a fixed length over a 16-letter (op,id) alphabet for both stores, compared with a plain-map model after every read and by a full scan through every replica at the end; random: sequences to length 60 (one in eight: 50-400 operations over up to 66 sessions with ids of realistic length). Agreement tier: the same sequence (exhaustively to length 5 [7] over six operations and two gaps with an idle timeout of 10 s with and without an absolute one, and randomly (to length 16, with absolute and idle timeouts from {0,3,10,60} s and advances to fractions of a limit) on the memory store and on two Redis replicas at once; every read must find the same thing in both kinds of store outside the 1 s bands around every instant at which any reading of 'last used' could put a limit. Clock-interleave tier (memory store): two operations on one session overlap while the harness-owned clock moves between the first one's clock reading and the rest of its work; one second short of an idle period after the second operation the session must still be there. Concurrent tier: 2-4 goroutines x 3-8 ops on 2 ids against the memory store, histories checked for linearizability with porcupine. Non-trivial = touches >= 2 ids and has a Clear/Remove followed by a later op on the same id (sequential) / has overlapping operations of different goroutines (concurrent)."
 	r.Assumptions = []string{
 		"values respect caller preconditions: parseable ID token, non-empty login-state members",
 		"an error from Clear/Remove on an absent id is not a divergence (both stores leave the id absent)",
@@ -639,7 +717,7 @@ func TestC12(t *testing.T) {
 		"exh-memory": c12Exh("memory", exLen), "exh-redis": c12Exh("redis", exLen),
 		"exh-memory-3": c12Exh("memory", 3), "exh-redis-3": c12Exh("redis", 3), "exh-memory-4": c12Exh("memory", 4), "exh-redis-4": c12Exh("redis", 4),
 		"exh-memory-5": c12Exh("memory", 5), "exh-redis-5": c12Exh("redis", 5),
-		"random": c12Random, "concurrent": c12Concurrent, "agree": c12Agree,
+		"random": c12Random, "concurrent": c12Concurrent, "agree": c12Agree, "clock-interleave": c12ClockInterleave,
 		"agree-exh-5": c12AgreeExh(5), "agree-exh-7": c12AgreeExh(7),
 	}
 	if r.Replay != "" {
@@ -651,6 +729,7 @@ func TestC12(t *testing.T) {
 	r.Exhaustive(fmt.Sprintf("exh-redis-%d", exLen), 0, parts["exh-redis"])
 	r.Rapid("random", r.N(6000, 200000), c12Random)
 	r.Rapid("concurrent", r.N(2000, 100000), c12Concurrent)
+	r.Rapid("clock-interleave", r.N(40, 1500), c12ClockInterleave)
 	if r.Thorough() {
 		r.Exhaustive("agree-exh-7", 0, parts["agree-exh-7"])
 	} else {
